@@ -8,8 +8,8 @@ Require Import Htp.Spec.SWire Htp.Proof.PWire Htp.Proof.PWireHdr Htp.Proof.PWire
 Require Import Htp.Proof.PWireRun Htp.Proof.PWirePres Htp.Proof.PWireGlue Htp.Proof.PSeg Htp.Proof.PSegLine Htp.Proof.PSegHdr.
 
 (* the transaction when the header block starts *)
-Definition sg_th0 (g : cfg) (m u pr : bytes) : tx :=
-  (sg_tx_line g wr_t1 (wr_ser_request_line m u pr)) <| t_request_progress := c_HTP_REQUEST_HEADERS |>.
+Definition sg_th0 (g : cfg) (k : nat) (m u pr : bytes) : tx :=
+  (sg_tx_line g (sg_t1 k) (wr_ser_request_line m u pr)) <| t_request_progress := c_HTP_REQUEST_HEADERS |>.
 
 Lemma sg_fuel_8 (x : bytes) : exists f, rq_fuel (length x) = (8 + f)%nat.
 Proof. exists (16 * length x + 8)%nat. unfold rq_fuel. lia. Qed.
@@ -28,11 +28,14 @@ Variable fin : list (option tx) -> Prop.                            (* what the 
 Variable ext : connp -> bytes -> Prop.                              (* further states between two calls (a body being read) *)
 
 Let line0 := wr_ser_request_line m u pr.
-Let th0 := sg_th0 g m u pr.
+Let th0 := sg_th0 g 0 m u pr.
+(* one request on a fresh connection: no earlier transaction, no connection flag *)
+Notation sg_cin := (sg_cinw sg_w0).
+Notation sg_mid := (sg_midw sg_w0).
 
 (* ---- the state between two calls, and what one call has to establish ---- *)
 Definition sg_between (c : connp) (rw : bytes) : Prop :=
-  (exists p q, sg_mid c p None REQ_LINE None wr_t1 /\ p ++ q = line0 ++ [CR; LF] /\ q <> [] /\ rw = q ++ bwt) \/
+  (exists p q, sg_mid c p None REQ_LINE None (sg_t1 0) /\ p ++ q = line0 ++ [CR; LF] /\ q <> [] /\ rw = q ++ bwt) \/
   (exists p hdr t, sg_mid c p hdr REQ_HEADERS (Some H_REQUEST_HEADER_DATA) t /\ hlog hdr t p rw) \/
   ext c rw.
 Definition sg_post (cF : connp) (rw' : bytes) : Prop :=
@@ -48,7 +51,7 @@ Hypothesis Hcall : forall c d rd p hdr t rw' f,
 
 (* ---- a call that starts (or continues) in REQ_LINE ---- *)
 Lemma sg_call_line c d p q rw' f :
-  sg_cin c d 0 p None REQ_LINE (Some REQ_LINE) None wr_t1 ->
+  sg_cin c d 0 p None REQ_LINE (Some REQ_LINE) None (sg_t1 0) ->
   p ++ q = line0 ++ [CR; LF] -> q <> [] -> d ++ rw' = q ++ bwt ->
   exists cF rc, rq_loop cb g (8 + f) false c = (cF, rc) /\ sg_post cF rw'.
 Proof.
@@ -63,11 +66,11 @@ Proof.
     assert (Nu : sg_no_lf d = true).
     { rewrite Eq, Eb, app_assoc in Hpq. destruct (sg_app_last _ _ _ _ Hpq Hq2) as (q3 & _ & E3). unfold sg_no_lf. rewrite <- E3, <- app_assoc, !forallb_app in Hnolf.
       apply andb_prop in Hnolf. destruct Hnolf as [_ Nb]. apply andb_prop in Nb. apply Nb. }
-    destruct (sg_line_scan_nolf cb g d None _ _ wr_t1 d c 0 p (length d) H eq_refl Nu (le_n _)) as (c' & E & H').
+    destruct (sg_line_scan_nolf cb g d None _ _ (sg_t1 0) d c 0 p (length d) H eq_refl Nu (le_n _)) as (c' & E & H').
     assert (Lim : (length (p ++ d) + length (sg_olist None) <= g_field_limit_hard g)%nat).
     { assert (L : length (p ++ q) = (length line0 + 2)%nat) by (rewrite Hpq, app_length; reflexivity). rewrite app_length in L. rewrite app_length.
       cbn [sg_olist length]. unfold line0 in L. lia. }
-    destruct (sg_exit_buffer cb g Hcb c' d _ None _ _ wr_t1 H' Lim) as (cF & EF & HF).
+    destruct (sg_exit_buffer cb g Hcb c' d _ None _ _ (sg_t1 0) H' Lim) as (cF & EF & HF).
     exists cF, c_HTP_STREAM_DATA. split.
     + change (8 + f)%nat with (S (7 + f)). apply sg_rq_loop_inl. unfold rq_iter. rewrite Es. cbn [rq_state_fn]. unfold REQ_LINE_fn.
       rewrite (ci_len _ _ _ _ _ _ _ _ _ H), (ci_read _ _ _ _ _ _ _ _ _ H), Nat.sub_0_r, E, EF. reflexivity.
@@ -79,10 +82,10 @@ Proof.
     assert (Nq1 : sg_no_lf q1 = true) by (unfold sg_no_lf in *; rewrite <- Ep1, forallb_app in Hnolf; apply andb_prop in Hnolf; apply Hnolf).
     assert (Ed' : d = q1 ++ LF :: d2) by (rewrite Ed, Eq1, <- app_assoc; reflexivity).
     assert (Ep : p ++ q1 ++ [LF] = wr_ser_request_line m u pr ++ [CR; LF]) by (rewrite app_assoc, Ep1; symmetry; exact Eb).
-    destruct (sg_pass_line cb g Hcb Hspace c d p q1 d2 wr_t1 m u pr Wl eq_refl H Ed' Nq1 Ep Hlim0) as (c2 & E2 & H2 & Hr2).
+    destruct (sg_pass_line cb g Hcb Hspace c d p q1 d2 (sg_t1 0) m u pr Wl eq_refl H Ed' Nq1 Ep Hlim0) as (c2 & E2 & H2 & Hr2).
     change (8 + f)%nat with (S (S (6 + f))). rewrite (sg_rq_loop_inr cb g _ _ _ E2).
-    assert (Z9 : t_is_protocol_0_9 (sg_tx_line g wr_t1 (wr_ser_request_line m u pr)) = false).
-    { destruct (sg_tx_line_facts g Hspace wr_t1 m u pr Wl eq_refl) as (_ & F' & _). cbv zeta in F'. unfold wr_line_fields in F'. decompose [and] F'. assumption. }
+    assert (Z9 : t_is_protocol_0_9 (sg_tx_line g (sg_t1 0) (wr_ser_request_line m u pr)) = false).
+    { destruct (sg_tx_line_facts g Hspace (sg_t1 0) m u pr Wl eq_refl) as (_ & F' & _). cbv zeta in F'. unfold wr_line_fields in F'. decompose [and] F'. assumption. }
     destruct (sg_pass_protocol cb g c2 d _ _ H2 Z9) as (c3 & E3 & H3). rewrite (sg_rq_loop_inr cb g _ _ _ E3).
     apply (Hcall c3 d _ [] None th0 rw' f H3). rewrite Hr2, <- Eaft. exact Hstart.
 Qed.
@@ -93,7 +96,7 @@ Lemma sg_step c (rw x rw' : bytes) : sg_between c rw -> x <> [] -> rw = x ++ rw'
   exists c' rc, connp_req_data cb g (Some x) (length x) c = (c', rc) /\ sg_post c' rw'.
 Proof.
   intros [(p & q & Hm & Hpq & Hq & Erw)|[(p & hdr & t & Hm & Hl)|He]] Hne Ex.
-  - destruct (sg_enter cb g c p None _ _ wr_t1 x Hm Hne) as (c1 & E1 & H1). unfold bytes in *. rewrite E1.
+  - destruct (sg_enter cb g c p None _ _ (sg_t1 0) x Hm Hne) as (c1 & E1 & H1). unfold bytes in *. rewrite E1.
     destruct (sg_fuel_8 x) as (f & Ef). rewrite Ef.
     apply (sg_call_line c1 x p q rw' f H1 Hpq Hq). rewrite <- Ex. exact Erw.
   - destruct (sg_enter cb g c p hdr _ _ t x Hm Hne) as (c1 & E1 & H1). unfold bytes in *. rewrite E1.
@@ -107,10 +110,11 @@ Lemma sg_first c0 (x rw' : bytes) :
   c_in_status c0 = c_HTP_STREAM_OPEN -> c_out_status c0 = c_HTP_STREAM_OPEN -> c_in_state c0 = REQ_IDLE -> c_in_state_previous c0 = None ->
   c_in_tx c0 = None -> c_txs c0 = [] -> c_txs_shifted c0 = 0%nat ->
   k_buf (c_in c0) = None -> k_header (c_in c0) = None -> k_receiver_hook (c_in c0) = None ->
+  c_conn_flags c0 = 0%N -> c_out_next_tx_index c0 = 0%nat ->
   x <> [] -> x ++ rw' = line0 ++ [CR; LF] ++ bwt ->
   exists c' rc, connp_req_data cb g (Some x) (length x) c0 = (c', rc) /\ sg_post c' rw'.
 Proof.
-  intros Hst Host Hs Hp Ht Htxs Hshift Hb Hh Hrh Hne Ex.
+  intros Hst Host Hs Hp Ht Htxs Hshift Hb Hh Hrh Hfl Hon Hne Ex.
   assert (Hlen0 : (length x =? 0)%nat = false) by (destruct x; [contradiction|reflexivity]).
   unfold connp_req_data. rewrite Hst.
   change ((c_HTP_STREAM_OPEN =? c_HTP_STREAM_STOP)%Z) with false. change ((c_HTP_STREAM_OPEN =? c_HTP_STREAM_ERROR)%Z) with false. cbv iota.
@@ -120,11 +124,14 @@ Proof.
                    <| c_in_chunk_count ::= S |> <| c_in_data_counter ::= Z.add (Z.of_nat (length x)) |>) =? c_HTP_STREAM_TUNNEL)%Z = false).
   { change (c_in_status _) with (c_in_status c0). rewrite Hst. reflexivity. }
   rewrite St1 in *. clear St1.
-  assert (Idle1 : wr_idle c1 x).
+  assert (Idle1 : sg_idl c1 x 0 [] [] 0%N None).
   { unfold c1. match goal with |- context [(c_out_status ?y =? _)%Z] => change (c_out_status y) with (c_out_status c0) end. rewrite Host. change ((c_HTP_STREAM_OPEN =? c_HTP_STREAM_DATA_OTHER)%Z) with false. cbv iota.
-    constructor; try assumption; reflexivity. }
+    constructor; try assumption; try reflexivity; try (cbn; lia).
+    - left. exact Hst.
+    - cbn. rewrite Hb. reflexivity. }
   clearbody c1.
-  destruct (sg_pass_idle cb g Hcb c1 x Idle1 Hne) as (c2 & E2 & H2).
+  assert (Lx : (0 < length x)%nat) by (destruct x; [contradiction|cbn; lia]).
+  destruct (sg_pass_idle cb g Hcb c1 x 0 [] [] 0%N None Idle1 Lx ltac:(right; cbn; lia)) as (c2 & E2 & H2).
   destruct (sg_fuel_8 x) as (f & Ef). rewrite Ef. change (8 + f)%nat with (S (8 + (f - 1))) || replace (8 + f)%nat with (S (8 + (f - 1))).
   2: { unfold rq_fuel in Ef. lia. }
   rewrite (sg_rq_loop_inr cb g _ _ _ E2).
@@ -136,7 +143,7 @@ Qed.
 (* ---- finish_call between two calls ---- *)
 Lemma sg_mid_finish c p hdr st rh t : sg_mid c p hdr st rh t -> sg_mid (forget_chunks c <| c_events := [] |>) p hdr st rh t.
 Proof.
-  intros [A1 A2 A3 A4 A5 A6 A7 A8 A9].
+  intros [A1 A2 A3 A4 A5 A6 A7 A8 A9 A10 A11].
   assert (F : k_buf (forget_one (c_in c)) = k_buf (c_in c) /\ k_header (forget_one (c_in c)) = k_header (c_in c) /\
               k_receiver_hook (forget_one (c_in c)) = k_receiver_hook (c_in c)) by (unfold forget_one; destruct (k_data (c_in c)); repeat split).
   destruct F as (F1 & F2 & F3).
@@ -183,7 +190,7 @@ Proof.
   rewrite E0. destruct chunks as [|x rest].
   - cbn [concat] in Hc. symmetry in Hc. apply app_eq_nil in Hc. destruct Hc as [_ Hc]. discriminate.
   - cbn [concat] in Hc. cbn [map]. rewrite sg_cp_run_cons.
-    destruct (sg_first c0 x (concat rest) eq_refl eq_refl eq_refl eq_refl eq_refl eq_refl eq_refl eq_refl eq_refl eq_refl (Forall_inv Hall) Hc)
+    destruct (sg_first c0 x (concat rest) eq_refl eq_refl eq_refl eq_refl eq_refl eq_refl eq_refl eq_refl eq_refl eq_refl eq_refl eq_refl (Forall_inv Hall) Hc)
       as (c' & rc & E & [[Hn Hb']|[Hn T]]); unfold bytes in *; rewrite E; cbn [fst].
     + apply (sg_chunks rest _ (concat rest) (sg_between_finish _ _ Hb') Hn (Forall_inv_tail Hall) eq_refl).
     + rewrite (sg_concat_nil rest (Forall_inv_tail Hall) Hn). cbn [map cp_run fst]. exact T.
